@@ -37,6 +37,8 @@ class Ctx:
         self.rule = ''
         self.assumptions = []
         self.quick = tier == 'quick'
+        self._second = False
+        self._again, self._again_n, self._again_stride, self._again_cap = [], 0, 1, 600
 
     # ---- TLC ----
     def tlc(self, module, cfg, **kw):
@@ -76,7 +78,38 @@ class Ctx:
         self.skipped[why] = self.skipped.get(why, 0) + n
 
     def mismatch(self, signature, detail, case=None):
+        if self._second:
+            if any(m.signature == signature for m in self.mismatches):
+                return           # already reported by the first pass
+            detail = '[second pass: the same cases evaluated once more, in reverse order] ' + detail
         self.mismatches.append(Mismatch(signature, detail, case))
+
+    # ---- second pass: an observation must not depend on what was evaluated before it ----
+    def again(self, fn, *a, **k):
+        """remember a case (a call of the check's own comparison function) for the second pass; the store decimates itself"""
+        self._again_n += 1
+        if self._again_n % self._again_stride:
+            return
+        self._again.append((fn, a, k))
+        if len(self._again) >= 2 * self._again_cap:
+            self._again = self._again[::2]
+            self._again_stride *= 2
+
+    def second_pass(self):
+        """Evaluate the remembered cases once more in reverse order (process-wide caches, memoised results keyed too coarsely and
+        state left behind by earlier cases show up here); counts are not touched."""
+        saved = (self.evaluations, self.replayed, set(self.nontrivial), dict(self.skipped), list(self.samples))
+        self._second = True
+        try:
+            for fn, a, k in reversed(self._again):
+                fn(*a, **k)
+        finally:
+            self._second = False
+        n = len(self._again)
+        self.evaluations, self.replayed, self.nontrivial, self.skipped, self.samples = saved
+        self.extra['second_pass_in_reverse_order'] = self.extra.get('second_pass_in_reverse_order', 0) + n
+        self._again = []
+        return n
 
     # ---- finish ----
     def finish(self, level='model_checking'):
